@@ -201,41 +201,11 @@ _PARAMS5 = {"self": ty.TObj("ExpressionLowerer", only=("ExpressionLowerer",)), "
             "left_ref": _REF, "right_ref": _REF, "output_type": ty.Str, "left_signal_type": ty.TOpt(ty.Str)}
 _SELF_T2 = {"ir_builder": ty.TObj("IRBuilder", only=("IRBuilder",)), "parent": ty.TOpaque("parent")}
 
-CMP_NODE = {}
-
-
-def _cmp_node_effect(ex, a):
-    """the node of the decider just created (looked up to flag a wildcard comparison)"""
-    if "node" not in CMP_NODE:
-        n = SObj(["IRDecider"], fresh_name("cmp_node"), lazy=False)
-        n._fields["debug_metadata"] = {}
-        CMP_NODE["node"] = n
-    return CMP_NODE["node"]
-
-
-_cmp_get_op = Contract(qualname=IRB + "get_operation", params={"self": _OPQ, "node_id": _OPQ}, effect=_cmp_node_effect, verify=False,
-                       note="dictionary lookup: the node of the decider just created")
-
-
-def _wildcard_post(a, res):
-    """any()/all() against a signal: the decider is flagged for wire separation (the scalar must not be ranged over by the wildcard)"""
-    l, r = a.left_ref, a.right_ref
-    md = CMP_NODE["node"]._fields["debug_metadata"] if "node" in CMP_NODE else {}
-    flagged = md.get("needs_wire_separation") is True and (isinstance(r, SObj) and md.get("scalar_signal_id") is r.source_id)
-    if isinstance(l, SObj) and isinstance(r, SObj):
-        wild = Or(l.signal_type == "signal-anything", l.signal_type == "signal-everything")
-        return wild if flagged else Not(wild)
-    return not md
-
-
 for _op in A.CMP_OPS:
     CONTRACTS.append(Contract(
-        qualname=EL + "_lower_comparison_op", params=_PARAMS5, requires=_REQ + [("(reset capture)", lambda a: CMP_NODE.clear() or True)],
-        ensures=[(f"value is [l {_op} r]", _cmp_post(_op)), ("carried on the requested type", lambda a, res: res.signal_type == a.output_type),
-                 ("a wildcard (any / all) compared with a signal is flagged for wire separation, nothing else is", _wildcard_post)],
-        uses={**_SIMPLE_USES, "IRBuilder.get_operation": _cmp_get_op}, dynamic_types={"self": _SELF_T2, "expr": {"op": ty.TConcrete(_op)}}, properties=("C01", "C02"),
-        min_obligations=2, note=f"op {_op}"))
-CONTRACTS.append(_cmp_get_op)
+        qualname=EL + "_lower_comparison_op", params=_PARAMS5, requires=_REQ,
+        ensures=[(f"value is [l {_op} r]", _cmp_post(_op)), ("carried on the requested type", lambda a, res: res.signal_type == a.output_type)],
+        uses=_SIMPLE_USES, dynamic_types={"self": _SELF_T2, "expr": {"op": ty.TConcrete(_op)}}, properties=("C01",), min_obligations=2, note=f"op {_op}"))
 
 for _op in ("**", "<<", ">>", "AND", "OR", "XOR"):
     CONTRACTS.append(Contract(
